@@ -29,14 +29,15 @@ CONSTANTS MAX,        \* frame payload limit (model scale, >= 3)
           Emit        \* TRUE: print behaviours
 
 VARIABLES wn, ni, wOff, wpend, wst, fin,      \* writer side (script progress, FrameStream.writeEOF)
+          wReq,                               \* ghost: bytes handed to Write while the stream was open
           wire,                               \* frames in flight on the connection
           rsz, rbuf, roff, rEOF, dOff,        \* reader side (FrameStream.readBuf/readOff/readEOF)
           devOrder, devColData, devColEnd, foreignDelivered,   \* ghosts
           hist                                \* generation only: the writer script so far
 
-vars == <<wn, ni, wOff, wpend, wst, fin, wire, rsz, rbuf, roff, rEOF, dOff,
+vars == <<wn, ni, wOff, wpend, wst, fin, wReq, wire, rsz, rbuf, roff, rEOF, dOff,
           devOrder, devColData, devColEnd, foreignDelivered, hist>>
-view == <<wn, ni, wOff, wpend, wst, fin, wire, rsz, rbuf, roff, rEOF, dOff,
+view == <<wn, ni, wOff, wpend, wst, fin, wReq, wire, rsz, rbuf, roff, rEOF, dOff,
           devOrder, devColData, devColEnd, foreignDelivered>>
 
 \* ---- sizes ------------------------------------------------------------------------------
@@ -66,7 +67,7 @@ InjFrame(k) == CASE k = "fd"  -> Frame(Diff,   "data", 0, 1)
                  [] k = "fes" -> Frame(Same16, "eof",  0, 0)
                  [] k = "unk" -> Frame(Own,    "unk",  0, 1)
 
-Init == /\ wn = 0 /\ ni = 0 /\ wOff = 0 /\ wpend = 0 /\ wst = "open" /\ fin = FALSE
+Init == /\ wn = 0 /\ ni = 0 /\ wOff = 0 /\ wpend = 0 /\ wst = "open" /\ fin = FALSE /\ wReq = 0
         /\ wire = <<>>
         /\ rsz \in RSizes
         /\ rbuf = NoBuf /\ roff = 0 /\ rEOF = FALSE /\ dOff = 0
@@ -85,8 +86,10 @@ WriteCall(c) ==
   /\ (wst # "open" => c = "one")          \* one representative refused write is enough
   /\ wn' = wn + 1
   /\ IF wst # "open"
-     THEN /\ wpend' = 0 /\ H([op |-> "write", c |-> c, exp |-> "refused"])
-     ELSE /\ wpend' = Size(c) /\ H([op |-> "write", c |-> c, exp |-> "ok"])
+     THEN /\ wpend' = 0 /\ wReq' = wReq /\ H([op |-> "write", c |-> c, exp |-> "refused"])
+     \* on an open stream there is no refusing branch, whatever the size: <= MAX goes out as one
+     \* frame, > MAX is split (WritesAccepted states this as an invariant)
+     ELSE /\ wpend' = Size(c) /\ wReq' = wReq + Size(c) /\ H([op |-> "write", c |-> c, exp |-> "ok"])
   /\ UNCHANGED <<ni, wOff, wst, fin, wire>> /\ RUnch
 
 WriteFrameStep ==
@@ -95,7 +98,7 @@ WriteFrameStep ==
      IN /\ wire' = Append(wire, Frame(Own, "data", wOff, n))
         /\ wOff' = wOff + n
         /\ wpend' = wpend - n
-  /\ UNCHANGED <<wn, ni, wst, fin, hist>> /\ RUnch
+  /\ UNCHANGED <<wn, ni, wst, fin, wReq, hist>> /\ RUnch
 
 \* CloseWrite / Close: one empty EOF / Close frame, idempotent through writeEOF
 EndCall(kind) ==
@@ -106,7 +109,7 @@ EndCall(kind) ==
   /\ Len(SelectSeq(hist, LAMBDA x : x.op \in {"eof", "close"})) < 2   \* at most two end calls per script
   /\ (~Gen => wst = "open")                                            \* a second call is a no-op: not explored
   /\ H([op |-> kind])
-  /\ UNCHANGED <<wn, ni, wOff, wpend, fin>> /\ RUnch
+  /\ UNCHANGED <<wn, ni, wOff, wpend, fin, wReq>> /\ RUnch
 
 \* another user of the same connection writes a frame (real WriteFrame on the same TCP conn)
 Inject(k) ==
@@ -115,7 +118,7 @@ Inject(k) ==
   /\ ni' = ni + 1
   /\ wire' = Append(wire, InjFrame(k))
   /\ H([op |-> "inj", k |-> k])
-  /\ UNCHANGED <<wn, wOff, wpend, wst, fin>> /\ RUnch
+  /\ UNCHANGED <<wn, wOff, wpend, wst, fin, wReq>> /\ RUnch
 
 Out(b) == IF Emit THEN PrintT("BEH " \o ToJson(b)) ELSE TRUE
 
@@ -124,7 +127,7 @@ Finish ==
   /\ WriterIdle /\ wst # "open"
   /\ fin' = TRUE
   /\ (Gen => Out([kind |-> "stream", rsz |-> rsz, script |-> hist]))
-  /\ UNCHANGED <<wn, ni, wOff, wpend, wst, wire, hist>> /\ RUnch
+  /\ UNCHANGED <<wn, ni, wOff, wpend, wst, wReq, wire, hist>> /\ RUnch
 
 \* ---- reader: FrameStream.Read --------------------------------------------------------------
 \* frames Read drops and keeps looping on: other header id, unknown type, empty data frame
@@ -144,7 +147,7 @@ Deliver(f, o, n) ==
   ELSE /\ foreignDelivered' = TRUE
        /\ UNCHANGED <<dOff, devOrder>>
 
-WUnch == UNCHANGED <<wn, ni, wOff, wpend, wst, fin, hist, rsz>>
+WUnch == UNCHANGED <<wn, ni, wOff, wpend, wst, fin, wReq, hist, rsz>>
 
 ReadFromBuf ==
   /\ ~Gen /\ ~rEOF /\ BufHasData
@@ -233,6 +236,10 @@ TypeOK == /\ wn \in 0..MaxWrites /\ ni \in 0..MaxInj /\ wst \in {"open", "eof", 
           /\ wpend \in 0..(2 * MAX + 1) /\ roff \in 0..MAX /\ dOff \in Nat /\ wOff \in Nat
           /\ \A i \in 1..Len(wire) : wire[i].len <= MAX
 
+\* Write on an open stream never refuses and never comes back short, for any size >= 0: once a
+\* call has returned (wpend = 0) every byte handed to it is on the connection, in frames <= MAX
+WritesAccepted == /\ wOff + wpend = wReq
+                  /\ (wpend = 0 => wOff = wReq)
 \* delivered bytes are an in-order prefix of the bytes written to our tunnel
 InOrderPrefix == ~devOrder /\ dOff <= wOff
 \* nothing of another tunnel / unknown type reaches the caller - except through the named deviation
